@@ -54,10 +54,11 @@ type Contract struct {
 	Results   []string
 	Requires  []*Clause
 	Ensures   []*Clause
+	Defines   []*Clause // definitional extension on a fresh result (ghost define, DESIGN §3.5)
 	Panics    []*Clause // panics when C
 	NoPanic   bool
 	Modifies  []*Clause
-	Loops     map[int]*LoopSpec
+	Loops     map[string]*LoopSpec // key: "N" for own loops, "callee.N" for loops of inlined callees
 	Splits    []*SplitSpec
 	Mode      string // "", "bv"
 	Inline    bool
@@ -71,6 +72,7 @@ type Contract struct {
 	Havoc     string // for assumed: what is havocked: "none" (default for pure), "all"
 	Fresh     bool
 	Opts      map[string]string
+	synth     bool
 }
 
 type TypeSpec struct {
@@ -106,8 +108,8 @@ type ContractFile struct {
 	Axioms    []*Clause
 }
 
-var headRe = regexp.MustCompile(`^(func|iface|assume|type|spec|uninterpreted|axiom)\b\s*(.*)$`)
-var clauseKw = map[string]bool{"requires": true, "ensures": true, "panics": true, "split": true, "loop": true, "modifies": true,
+var headRe = regexp.MustCompile(`^(func|iface|assume|type|spec|uninterpreted|axiom|lemma)\b\s*(.*)$`)
+var clauseKw = map[string]bool{"defines": true, "requires": true, "ensures": true, "panics": true, "split": true, "loop": true, "modifies": true,
 	"immutable": true, "invariant": true, "view": true, "ghost": true, "mode": true, "inline": true, "refines": true,
 	"pure": true, "property": true, "nopanic": true, "safety": true, "havoc": true, "fresh": true, "opt": true}
 
@@ -171,7 +173,7 @@ func ParseContractFile(path, pkgPath string) (cf *ContractFile, err error) {
 			rest := strings.TrimSpace(m[2])
 			switch m[1] {
 			case "func", "iface", "assume":
-				c := &Contract{Kind: m[1], Loops: map[int]*LoopSpec{}, File: path, Opts: map[string]string{}}
+				c := &Contract{Kind: m[1], Loops: map[string]*LoopSpec{}, File: path, Opts: map[string]string{}}
 				if m[1] == "assume" {
 					c.Trusted = true
 				}
@@ -237,6 +239,10 @@ func ParseContractFile(path, pkgPath string) (cf *ContractFile, err error) {
 				cf.Funcs = append(cf.Funcs, sf)
 			case "axiom":
 				cf.Axioms = append(cf.Axioms, mustClause(rest, where))
+			case "lemma":
+				c := &Contract{Kind: "lemma", Key: rest, Loops: map[string]*LoopSpec{}, File: path, Opts: map[string]string{}}
+				cf.Contracts = append(cf.Contracts, c)
+				cur = c
 			}
 			continue
 		}
@@ -277,6 +283,8 @@ func ParseContractFile(path, pkgPath string) (cf *ContractFile, err error) {
 			cur.Requires = append(cur.Requires, mustClause(rest, where))
 		case "ensures":
 			cur.Ensures = append(cur.Ensures, mustClause(rest, where))
+		case "defines":
+			cur.Defines = append(cur.Defines, mustClause(rest, where))
 		case "panics":
 			rest = strings.TrimSpace(strings.TrimPrefix(rest, "when"))
 			cur.Panics = append(cur.Panics, mustClause(rest, where))
@@ -338,14 +346,19 @@ func ParseContractFile(path, pkgPath string) (cf *ContractFile, err error) {
 			if len(f) < 3 {
 				panic(fmt.Errorf("%s: bad loop clause", where))
 			}
-			n, err := strconv.Atoi(f[1])
+			lk := f[1]
+			nstr := lk
+			if k := strings.LastIndex(lk, "."); k >= 0 {
+				nstr = lk[k+1:]
+			}
+			n, err := strconv.Atoi(nstr)
 			if err != nil {
 				panic(fmt.Errorf("%s: loop ordinal", where))
 			}
-			ls := cur.Loops[n]
+			ls := cur.Loops[lk]
 			if ls == nil {
 				ls = &LoopSpec{Ordinal: n}
-				cur.Loops[n] = ls
+				cur.Loops[lk] = ls
 			}
 			body := strings.TrimSpace(strings.TrimPrefix(strings.TrimSpace(strings.TrimPrefix(rest, f[1])), f[2]))
 			switch f[2] {
